@@ -45,8 +45,9 @@ TraceStep ==
        THEN Reset
        ELSE /\ \/ /\ e.a = "env.cancel" /\ CtxCancel(e.p)
                \/ /\ e.a = "env.pcancel" /\ ParentCancel
+               \/ /\ e.a = "env.pooluser" /\ PoolUserAny
                \/ /\ e.a \in FaultGates /\ pc[e.p] = BaseGate(e.a) /\ Fault(e.p)
-               \/ /\ e.a \notin FaultGates /\ e.a \notin {"env.cancel", "env.pcancel"} /\ pc[e.p] = e.a /\ Step(e.p)
+               \/ /\ e.a \notin FaultGates /\ e.a \notin {"env.cancel", "env.pcancel", "env.pooluser"} /\ pc[e.p] = e.a /\ Step(e.p)
             /\ Post(e)
 
 TraceSpec == TraceInit /\ [][TraceStep]_<<vars, l>>
